@@ -309,6 +309,28 @@ fn check_parties(t: &Type, secret: &Value, tuples: &[Value; 3]) -> Result<(Vec<V
             ));
         }
     }
+    // the two shares a party holds are made of fresh generator output (and, for one of them, the secret minus such
+    // output): in a large value no 16-byte block may occur twice among them (a repeat has probability ~2^-128 per pair;
+    // it means the generator handed out the same key stream twice, and the held shares are then not uniform)
+    for p in 0..3 {
+        let mut bytes = vec![];
+        flat_bytes(&slots[p][p], &mut bytes);
+        let first_len = bytes.len();
+        flat_bytes(&slots[p][(p + 1) % 3], &mut bytes);
+        if first_len >= 64 {
+            let mut seen: std::collections::HashSet<&[u8]> = std::collections::HashSet::new();
+            for half in [&bytes[..first_len], &bytes[first_len..]] {
+                for blk in half.chunks_exact(16) {
+                    if !seen.insert(blk) {
+                        return Err((
+                            "held-shares-repeat-a-block".into(),
+                            format!("the two shares party {} holds contain the 16-byte block {:02x?} twice", p, blk),
+                        ));
+                    }
+                }
+            }
+        }
+    }
     let junk = (0..3).map(|p| slots[p][(p + 2) % 3].clone()).collect();
     Ok((shares, junk))
 }
